@@ -15,7 +15,7 @@ from .sem import Unsupported, eval_table
 IDX0 = 10  # index names in the spec are 10, 11, 12, ...
 
 
-def mc_module(name, pool, lits, zeros, idxpool, opset, maxnodes, maxrank, maxdim, finalops=()):
+def mc_module(name, pool, lits, zeros, idxpool, opset, maxnodes, maxrank, maxdim, finalops=(), levels=()):
     lit_txt = "<<" + ", ".join(f'[nm |-> "{n}", v |-> {to_tla(Cx.of(v))}]' for n, v in lits) + ">>"
     zero_txt = "<<" + ", ".join("<<" + ", ".join(map(str, z)) + ">>" for z in zeros) + ">>"
     return f"""---- MODULE {name} ----
@@ -28,11 +28,12 @@ MC_Zeros == {zero_txt}
 MC_IdxPool == <<{", ".join(map(str, idxpool))}>>
 MC_OpSet == {{{", ".join(json.dumps(o) for o in sorted(opset))}}}
 MC_FinalOps == {{{", ".join(json.dumps(o) for o in sorted(finalops))}}}
+MC_OpLevels == <<{", ".join("{" + ", ".join(json.dumps(o) for o in sorted(l)) + "}" for l in levels)}>>
 ====
 """
 
 
-def mc_cfg(pool, maxnodes, maxrank, maxdim, dump=True, invariants=("WellFormed",), props=("AppendOnly",)):
+def mc_cfg(pool, maxnodes, maxrank, maxdim, final_only=False, mikinds=("fixed", "name", "slice"), dump=True, invariants=("WellFormed",), props=("AppendOnly",)):
     lines = [
         "CONSTANTS",
         "Terminals <- MC_Terminals",
@@ -43,6 +44,9 @@ def mc_cfg(pool, maxnodes, maxrank, maxdim, dump=True, invariants=("WellFormed",
         "IdxPool <- MC_IdxPool",
         "OpSet <- MC_OpSet",
         "FinalOps <- MC_FinalOps",
+        "OpLevels <- MC_OpLevels",
+        f"DumpFinalOnly = {'TRUE' if final_only else 'FALSE'}",
+        "MiKinds = {" + ", ".join(json.dumps(k) for k in mikinds) + "}",
         f"MaxNodes = {maxnodes}",
         f"MaxRank = {maxrank}",
         f"MaxDim = {maxdim}",
@@ -68,6 +72,7 @@ class World:
 
         self.ufl = ufl
         self.pool = pool
+        self.gdim = gdim
         cell = {1: ufl.interval, 2: ufl.triangle, 3: ufl.tetrahedron}[gdim]
         self.mesh = ufl.Mesh(LagrangeElement(cell, 1, (gdim,)))
         self.terms = []
@@ -137,6 +142,8 @@ def apply_op(w, op, args, mi):
         return ufl.sqrt(a)
     if op == "sign":
         return ufl.sign(a)
+    if op == "variable":
+        return ufl.variable(a)
     if op == "index":
         return a[w.mi(mi)]
     if op == "as_tensor":
@@ -161,6 +168,10 @@ def apply_op(w, op, args, mi):
         return ufl.max_value(a, b)
     if op == "min":
         return ufl.min_value(a, b)
+    if op in ("xdet", "xinv", "xadj", "xcofac"):
+        import ufl.compound_expressions as ce
+
+        return {"xdet": ce.determinant_expr, "xinv": ce.inverse_expr, "xadj": ce.adj_expr, "xcofac": ce.cofactor_expr}[op](a)
     if op in PASSES:
         return PASSES[op](a)
     raise MachineryError(f"replay: unknown op {op}")
@@ -196,7 +207,58 @@ def _remove_complex(e):
     return remove_complex_nodes(e)
 
 
+class RealCodeError(Exception):
+    """The real code raised while being observed (an observable, not a machinery failure)."""
+
+
+class PointEval:
+    """Result of the action point_eval: the object whose __call__ is the system under test."""
+
+    def __init__(self, obj):
+        self.obj = obj
+        self.ufl_shape = obj.ufl_shape
+        self.ufl_free_indices = ()
+        self.ufl_index_dimensions = ()
+
+
+def _nested(tab, shape):
+    """{comp: Cx} -> nested tuples of python numbers (Fraction or complex), as users pass them."""
+    def num(v):
+        if v.im == 0:
+            return v.re
+        return complex(v)
+
+    def rec(prefix, sh):
+        if not sh:
+            return num(tab[prefix])
+        return tuple(rec(prefix + (k,), sh[1:]) for k in range(sh[0]))
+
+    return rec((), tuple(shape))
+
+
+def point_tables(w, pe):
+    """Evaluate the real object with ufl's own point evaluation e(x, mapping, component)."""
+    from .envs import comps as _comps
+
+    tabs = []
+    x = (0.25, 0.5, 0.125)[: w.gdim]
+    for e in range(w.pool.nenv):
+        mapping = {t: _nested(w.pool.values[e][name], shape) for t, (name, shape) in zip(w.terms, w.pool.terminals)}
+        tab = {}
+        for c in _comps(pe.obj.ufl_shape):
+            try:
+                v = pe.obj(x, mapping, component=c) if c else pe.obj(x, mapping)
+                tab[((), c)] = Cx.of(v if not hasattr(v, "_value") else v._value)
+            except (ZeroDivisionError, OverflowError):
+                tab[((), c)] = None
+            except Exception as exc:  # noqa: BLE001 - the system under test failed
+                raise RealCodeError(f"e(x, mapping, component={c}) raised {type(exc).__name__}: {exc}") from exc
+        tabs.append(tab)
+    return tabs
+
+
 PASSES = {
+    "point_eval": PointEval,
     "lower": _lower,
     "expand_indices": _expand_indices,
     "remove_ct": _remove_ct,
@@ -242,6 +304,8 @@ def observe(w, obj, is_bool=False):
         if c not in w.idxname:
             return sh, None, None  # a foreign index leaked into the result
         fi.append((w.idxname[c], d))
+    if isinstance(obj, PointEval):
+        return sh, fi, point_tables(w, obj)
     tabs = [eval_table(obj, env) for env in w.envs]
     return sh, fi, tabs
 
@@ -288,6 +352,8 @@ def compare_inner(w, rec):
     obj = objs[-1]
     try:
         sh, fi, tabs = observe(w, obj, rec.get("bool", False))
+    except RealCodeError as exc:
+        return "mismatch:raise", str(exc)
     except RecursionError:
         return "mismatch:cyclic-object", "reading the result recursed without end (an expression became its own operand)"
     if list(sh) != list(rec["sh"]):
